@@ -236,19 +236,17 @@ Section WithPreparer.
     preps s' = preps s.
   Proof.
     intros Hl Hv. simpl. unfold delete. rewrite Hl.
-    assert (Hdel : forall st, st = State (del_entry (cls, name) (cache s)) (S (clock s)) (preps s) ->
-              lookup (cls, name) (cache st) = None /\
-              (forall k', k' <> (cls, name) -> lookup k' (cache st) = lookup k' (cache s)) /\
-              preps st = preps s).
-    { intros st ->. simpl. split; [apply lookup_del_same|]. split; [|reflexivity].
+    assert (Hdel : lookup (cls, name) (del_entry (cls, name) (cache s)) = None /\
+              (forall k', k' <> (cls, name) ->
+                 lookup k' (del_entry (cls, name) (cache s)) = lookup k' (cache s)) /\
+              preps s = preps s).
+    { split; [apply lookup_del_same|]. split; [|reflexivity].
       intros k' N. now apply lookup_del_other. }
-    destruct Hv as [->|[->|->]]; simpl.
-    - split; [reflexivity|]. now apply Hdel.
-    - split; [reflexivity|]. now apply Hdel.
-    - destruct (nonempty (Some (e_version e))) as [v|] eqn:En.
-      + apply nonempty_Some in En. destruct En as [En _]. injection En as <-.
-        rewrite String.eqb_refl. simpl. split; [reflexivity|]. now apply Hdel.
-      + simpl. split; [reflexivity|]. now apply Hdel.
+    destruct Hv as [-> | [-> | ->]]; simpl.
+    - split; [reflexivity|exact Hdel].
+    - split; [reflexivity|exact Hdel].
+    - destruct (String.eqb (e_version e) ""); [|rewrite String.eqb_refl]; simpl;
+        (split; [reflexivity|exact Hdel]).
   Qed.
 
   Lemma delete_resource_is_delete cls m s name ver :
@@ -321,7 +319,7 @@ Section WithPreparer.
     rewrite run_frame by assumption.
     destruct (offer_then_lookup _ _ _ _ _ _ _ _ Hm Hr) as (e & Hl & Hv & He).
     simpl in Hl. exists e. repeat (split; [assumption|]).
-    rewrite run_frame by assumption. simpl in *. rewrite Hl, He. reflexivity.
+    simpl in *. rewrite Hl, He. reflexivity.
   Qed.
 
   (* ---- the cache is a dict: one entry per key, in every reachable state *)
